@@ -700,3 +700,132 @@ class E9Determinism(Engine):
                 c = copy.deepcopy(case)
                 c["scripts"] = ["\n".join(cand) + "\n"]
                 yield c
+
+
+# ====================================================================== C11
+
+
+class E9Hostile(Engine):
+    name = "e9-hostile"
+    property_id = "C11"
+    components_real = ["transpile.parser.parse", "transpile.emitter.emit"]
+    components_stub = [
+        "every I/O seam as a tripwire: sys.addaudithook (open, os.*, subprocess, socket, import, exec), canary files, os.environ, cwd",
+        "time: deterministic budget of traced interpreter steps + RLIMIT_CPU in a worker subprocess (big-int arithmetic produces no trace events)",
+    ]
+    assumptions = [
+        "prompt termination = 400000 + 3000*len(text) traced lines inside Reduino code and 20 s of CPU for a batch of 10 texts",
+        "SyntaxError is accepted only for text that ast.parse itself rejects",
+    ]
+    rule = (
+        "each case = 10 texts: hostile expressions (code execution, file/process/network/env access, huge arithmetic, "
+        "deep nesting, wrong types) planted in ~60 argument positions the parser folds or re-parses; mutated valid "
+        "scripts; byte noise. Judged per text: result is str or ValueError (SyntaxError only if not Python), no audit "
+        "event, no canary, no env/cwd/module-state change, within the step and CPU budget; non-trivial = at least one "
+        "text reached the emitter; distinct = digest of the text set"
+    )
+
+    def generate(self, rng, tier: str, avoid) -> dict:
+        from dst.gen.hostile import hostile_texts, mutate_text, noise
+        from dst.gen.programs import GenOptions, ProgGen
+
+        canary = "/verif/.work/canary/HIT"
+        texts = [t["text"] for t in hostile_texts(rng, canary, 6)]
+        for _ in range(3):
+            base = ProgGen(rng, (), GenOptions(max_stmts=rng.choice([6, 12, 20]))).generate()
+            texts.append(mutate_text(rng, base))
+        texts.append(noise(rng))
+        skip = set(avoid)
+        if "hostile_bigint" in skip:
+            texts = [t for t in texts if not re.search(r"\*\*\s*\d+\s*\*\*|<<\s*10\s*\*\*|\*\*\s*7777|\* 10\*\*10|10\*\*8", t)] or ["x = 1\n"]
+        return {"texts": texts}
+
+    def execute(self, case: dict) -> Outcome:
+        import ast as pyast
+        import json
+        import os
+        import sys
+
+        from dst.core.common import REPO, VERIF, WORK
+
+        canary_dir = str(WORK / "canary")
+        os.makedirs(canary_dir, exist_ok=True)
+        texts = [t.replace("/verif/.work/canary/HIT", os.path.join(canary_dir, f"hit{os.getpid()}")) for t in case["texts"]]
+        env = dict(os.environ, PYTHONPATH=str(VERIF), VERIF_REPO=str(REPO), PYTHONHASHSEED="0")
+        env.pop("REDUINO_VERIF", None)
+        job = {"texts": texts, "canary_dir": os.path.join(canary_dir, f"d{os.getpid()}"), "cpu_s": 20}
+        texts = [t.replace(os.path.join(canary_dir, f"hit{os.getpid()}"), os.path.join(job["canary_dir"], "hit")) for t in texts]
+        job["texts"] = texts
+        proc = subprocess.run(
+            [sys.executable, "-m", "dst.pc.hostile_worker"], input=json.dumps(job), capture_output=True, text=True,
+            env=env, cwd=str(VERIF), timeout=300,
+        )
+        shutil.rmtree(job["canary_dir"], ignore_errors=True)
+        started = -1
+        results: Dict[int, dict] = {}
+        for line in proc.stdout.splitlines():
+            if line.startswith("START "):
+                started = int(line.split()[1])
+            elif line.startswith("DONE "):
+                _, i, payload = line.split(" ", 2)
+                results[int(i)] = json.loads(payload)
+        reached_emit = 0
+        kinds: Dict[str, int] = {}
+        for i, text in enumerate(texts):
+            res = results.get(i)
+            if res is None:
+                if i == started:
+                    how = "killed by the CPU limit" if proc.returncode in (-24, -9) else f"worker died with status {proc.returncode}"
+                    return self._bad(i, "hang-or-crash", f"transpiling did not terminate promptly ({how}): {text[-120:]!r} {proc.stderr[-200:]}")
+                if started < i and proc.returncode != 0:
+                    raise RuntimeError(f"hostile worker failed before text {i}: {proc.stderr[-600:]}")
+                continue
+            if res["events"]:
+                return self._bad(i, "side-effect", f"audit events during transpilation: {res['events'][:3]}")
+            if res["canary"]:
+                return self._bad(i, "code-executed", f"canary file created: {res['canary']}")
+            if res["env_changed"] or res["cwd_changed"]:
+                return self._bad(i, "environment", "os.environ or the working directory changed")
+            if res["state_changed"]:
+                return self._bad(i, "module-state", f"module-level state changed: {res['state_changed']}")
+            kind = res["kind"]
+            kinds[kind if kind != "exc" else res["exc_type"]] = kinds.get(kind if kind != "exc" else res["exc_type"], 0) + 1
+            if kind == "str":
+                reached_emit += 1
+                continue
+            if kind == "budget":
+                return self._bad(i, "step-budget", f"more than {400000 + 3000 * len(text)} traced steps for {len(text)} characters")
+            if kind != "exc":
+                return self._bad(i, "result-type", kind)
+            mro = res["exc_mro"]
+            if "ValueError" in mro:
+                continue
+            if "SyntaxError" in mro:
+                try:
+                    pyast.parse(text)
+                except (SyntaxError, ValueError, RecursionError, MemoryError):
+                    continue
+                return self._bad(i, "exception-type/SyntaxError", f"SyntaxError for text that is valid Python: {res['exc_msg']}")
+            if "RecursionError" in mro or "MemoryError" in mro:
+                # accepted only when CPython itself cannot parse the text (it is then "not Python" for this interpreter)
+                try:
+                    pyast.parse(text)
+                except (RecursionError, MemoryError, SyntaxError, ValueError):
+                    continue
+            return self._bad(i, f"exception-type/{res['exc_type']}", f"internal error {res['exc_type']}: {res['exc_msg']}")
+        return Outcome("ok", digest=sha("\x00".join(texts))[:16], nontrivial=reached_emit > 0,
+                       probes={f"result_{k}": v for k, v in kinds.items()})
+
+    def _bad(self, i, cls, message) -> Outcome:
+        return Outcome("violation", cls=cls, message=f"text {i}: {message}"[:500], detail={"text_index": i})
+
+    def shrink_candidates(self, case: dict) -> Iterable[dict]:
+        texts = case["texts"]
+        if len(texts) > 1:
+            for t in texts:
+                yield {**copy.deepcopy(case), "texts": [t]}
+            return
+        lines = texts[0].split("\n")
+        for i in range(len(lines) - 1, -1, -1):
+            cand = lines[:i] + lines[i + 1 :]
+            yield {**copy.deepcopy(case), "texts": ["\n".join(cand)]}
